@@ -9,6 +9,7 @@ import (
 	"math/big"
 	"os"
 	"os/exec"
+	"runtime"
 	"strings"
 	"sync"
 	"time"
@@ -49,7 +50,7 @@ type Solver struct {
 	cmd       *exec.Cmd
 	in        io.WriteCloser
 	out       *bufio.Reader
-	stack     []*Term       // one asserted term per level
+	stack     []*Term        // one asserted term per level
 	defs      []map[int]bool // term ids defined at each level (index 0 = base)
 	defined   map[int]bool
 	TimeoutMS int
@@ -532,8 +533,31 @@ var fallbackSolvers = []struct {
 	{"z3", []string{"z3", "-in", "-smt2"}},
 }
 
-// FallbackTimeout is the per-query cap of the portfolio back ends.
+// FallbackTimeout is the per-query cap of the portfolio back ends, in CPU
+// seconds of each back end (enforced with RLIMIT_CPU); the wall-clock cap is
+// the same figure stretched by the machine's load factor.
 var FallbackTimeout = 60 * time.Second
+
+// LoadFactor is max(1, min(6, 1-minute load average / CPUs)): how much longer
+// than on an idle machine a CPU-bound job is expected to take right now.
+func LoadFactor() float64 {
+	b, err := os.ReadFile("/proc/loadavg")
+	if err != nil {
+		return 1
+	}
+	var l1 float64
+	if _, err := fmt.Sscanf(string(b), "%f", &l1); err != nil {
+		return 1
+	}
+	f := l1 / float64(runtime.NumCPU())
+	if f < 1 {
+		return 1
+	}
+	if f > 6 {
+		return 6
+	}
+	return f
+}
 
 func (s *Solver) fallback(pc []*Term, extra *Term, modelVars []*Term) (Result, Model) {
 	t0 := time.Now()
@@ -545,7 +569,7 @@ func (s *Solver) fallback(pc []*Term, extra *Term, modelVars []*Term) (Result, M
 		m    Model
 		name string
 	}
-	ctx, cancel := context.WithTimeout(context.Background(), FallbackTimeout)
+	ctx, cancel := context.WithTimeout(context.Background(), time.Duration(float64(FallbackTimeout)*LoadFactor()))
 	defer cancel()
 	ch := make(chan ans, len(fallbackSolvers))
 	var wg sync.WaitGroup
@@ -583,7 +607,7 @@ func (s *Solver) fallback(pc []*Term, extra *Term, modelVars []*Term) (Result, M
 
 func (s *Solver) oneShot(which string, pc []*Term, extra *Term, modelVars []*Term, d time.Duration) (Result, Model) {
 	script := s.Script(pc, extra, modelVars)
-	ctx, cancel := context.WithTimeout(context.Background(), d)
+	ctx, cancel := context.WithTimeout(context.Background(), time.Duration(float64(d)*LoadFactor()))
 	defer cancel()
 	for _, fs := range fallbackSolvers {
 		if fs.name == which {
@@ -594,7 +618,10 @@ func (s *Solver) oneShot(which string, pc []*Term, extra *Term, modelVars []*Ter
 }
 
 func runOneShot(ctx context.Context, argv []string, script string, wantModel bool) (Result, Model) {
-	cmd := exec.CommandContext(ctx, argv[0], argv[1:]...)
+	// CPU cap via the shell's ulimit so that an oversubscribed machine does not
+	// turn a decidable query into "unknown"
+	sh := fmt.Sprintf("ulimit -t %d; exec \"$@\"", int(FallbackTimeout/time.Second))
+	cmd := exec.CommandContext(ctx, "sh", append([]string{"-c", sh, "sh"}, argv...)...)
 	cmd.Stdin = strings.NewReader(script)
 	var out bytes.Buffer
 	cmd.Stdout = &out
